@@ -224,7 +224,8 @@ Definition judge_tree (c : sx) : sx :=
             end in
   let known := if raises then Some 5 else if occurs_elem_in_union t then Some 6 else None in
   let branch := 3000 + (if has_odo t then 1 else 0) + (if has_redef t then 2 else 0) + (if has_table t then 4 else 0)
-                + (match fillers with [] => 0 | _ => 8 end) in
+                + (match fillers with [] => 0 | _ => 8 end)
+                + (if odo_ok [] t then 16 else 0) in   (* hypothesis of C08_loadable about DEPENDING ON holds *)
   verdict known good agree branch
     (L [of_bool (sx_eqb schema (L [A 0; sx_of_js m])); of_bool (sx_eqb ext schema);
         match mload with Ok l => L [A 0; L (map sx_of_site l)] | Err ex => L [A 1; A (exn_code ex)] end;
